@@ -364,6 +364,57 @@ func c15WF(v reflect.Value) bool {
 	return false
 }
 
+// c15HasRecovered reports a recovered position anywhere in the tree.
+func c15HasRecovered(v reflect.Value) bool {
+	switch v.Kind() {
+	case reflect.Pointer, reflect.Interface:
+		return !v.IsNil() && c15HasRecovered(v.Elem())
+	case reflect.Struct:
+		if v.Type() == posType {
+			return v.Interface().(syntax.Pos).IsRecovered()
+		}
+		for i := 0; i < v.NumField(); i++ {
+			if c15HasRecovered(v.Field(i)) {
+				return true
+			}
+		}
+	case reflect.Slice:
+		for i := 0; i < v.Len(); i++ {
+			if c15HasRecovered(v.Index(i)) {
+				return true
+			}
+		}
+	}
+	return false
+}
+
+// c15SameModuloDerived compares two documents after removing every "Pos" and "End" key (the
+// results of the Pos()/End() methods; no struct field has such a name).
+func c15SameModuloDerived(a, b string) bool {
+	var x, y any
+	if json.Unmarshal([]byte(a), &x) != nil || json.Unmarshal([]byte(b), &y) != nil {
+		return false
+	}
+	var strip func(v any)
+	strip = func(v any) {
+		switch v := v.(type) {
+		case map[string]any:
+			delete(v, "Pos")
+			delete(v, "End")
+			for _, e := range v {
+				strip(e)
+			}
+		case []any:
+			for _, e := range v {
+				strip(e)
+			}
+		}
+	}
+	strip(x)
+	strip(y)
+	return reflect.DeepEqual(x, y)
+}
+
 // c15HasEmptySlice reports an empty-but-non-nil slice anywhere in the tree.
 func c15HasEmptySlice(v reflect.Value) bool {
 	switch v.Kind() {
@@ -857,7 +908,8 @@ type c15Stats struct {
 
 type c15Src struct {
 	src     string
-	big     string // witness prefix for generated huge inputs
+	big     string // fixed witness of a corpus case replaying a known finding (root node only)
+	recOnly bool   // such a case that is parsed with RecoverErrors only
 	corpus  bool
 	onlyOne bool
 }
@@ -880,6 +932,8 @@ func c15(c *Ctx) {
 			nl, _ := strconv.Atoi(f[1])
 			nc, _ := strconv.Atoi(f[2])
 			srcs = append(srcs, c15Src{src: strings.Repeat("\n", nl) + strings.Repeat(" ", nc) + unhx(f[3]), big: l, corpus: true, onlyOne: true})
+		case len(f) == 2 && f[0] == "rec":
+			srcs = append(srcs, c15Src{src: unhx(f[1]), big: l, corpus: true, onlyOne: true, recOnly: true})
 		case len(f) >= 1:
 			if _, err := hex.DecodeString(f[0]); err == nil || f[0] == "-" {
 				srcs = append(srcs, c15Src{src: unhx(f[0]), corpus: true})
@@ -912,7 +966,7 @@ func c15(c *Ctx) {
 		}
 		for _, lang := range langs {
 			for _, rec := range []bool{false, true} {
-				if s.onlyOne && rec {
+				if s.onlyOne && rec != s.recOnly {
 					continue
 				}
 				opts := []syntax.ParserOption{syntax.KeepComments(true)}
@@ -1101,7 +1155,14 @@ func c15Tree(c *Ctx, s c15Src, lang syntax.LangVariant, rec bool, f *syntax.File
 			if pn2 != "" || err2 != nil {
 				c.Fail(witness, "re-encoding the decoded tree fails: "+pn2+fmt.Sprint(err2))
 			} else if text2 != text {
-				c.Fail(witness, "re-encoding the decoded tree is not byte-identical")
+				// Generator exclusion (known finding C15-reencode-recovered-posend): when the tree
+				// holds a recovered position and the two documents differ only in the derived
+				// "Pos"/"End" keys, the case is counted, not judged; the corpus replays it.
+				if s.big == "" && c15HasRecovered(reflect.ValueOf(n)) && c15SameModuloDerived(text, text2) {
+					c.Hist["known-region:reencode-recovered-posend"]++
+				} else {
+					c.Fail(witness, "re-encoding the decoded tree is not byte-identical")
+				}
 			}
 		} else if derr == nil && dn != nil {
 			// tie only: the re-encoding of whatever was decoded
